@@ -19,13 +19,20 @@ def fail(msg):
     sys.exit(2)
 
 
+import os
+sys.path.insert(0, os.path.dirname(os.path.abspath(__file__)))
+from rustconst import const_in, const_of_impl
+
+SOURCES = []
+
+
 def rust_int(expr):
-    """evaluate a Rust integer constant expression made of literals, (), <<, +, -, *, /"""
-    e = expr.replace("_", "")
-    e = re.sub(r"(\d)(u8|u16|u32|u64|usize|i32|i64)\b", r"\1", e)
-    if not re.fullmatch(r"[0-9xXa-fA-F\s()<>+\-*/]+", e):
+    """evaluate a Rust integer constant expression: literals in any base, type suffixes, (), <<, +, -, *, /, and named
+    constants looked up in the sources (tools/rustconst.py) — a respelled constant reads as the same value"""
+    v = const_in(expr, *SOURCES)
+    if v is None:
         raise ValueError(expr)
-    return int(eval(e.replace("/", "//"), {"__builtins__": {}}, {}))
+    return v
 
 
 SOFT = []
@@ -84,7 +91,10 @@ def data_int(repo, name, text, pattern, what, group=1):
     implementation exhibits through its public API (a note, exit 3); if neither is available the anchor is lost (exit 2)"""
     m = re.search(pattern, text, re.S) if text is not None else None
     if m:
-        return rust_int(m.group(group))
+        try:
+            return rust_int(m.group(group))
+        except ValueError:
+            pass
     pv = probes(repo)
     if pv is not None and name in pv:
         SOFT.append(what)
@@ -97,28 +107,29 @@ def main():
     repo, out = sys.argv[1], sys.argv[2]
     enc = open(repo + "/src/encode.rs").read()
     meta = open(repo + "/src/metadata/mod.rs").read()
+    SOURCES[:] = [enc, meta]
     items = []   # (name, value, model term)
 
     # ---- encode.rs
-    items.append(("MAX_SAMPLES", data_int(repo, "MAX_SAMPLES", enc, r"const MAX_SAMPLES: u64 = ([0-9_xXa-fA-F<> ()+*-]+);", "Encoder::MAX_SAMPLES"), "MAX_SAMPLES"))
-    items.append(("MAX_LPC_COEFFS", rust_int(find(enc, r"const MAX_LPC_COEFFS: usize = ([0-9_]+);", "MAX_LPC_COEFFS").group(1)), "MAX_LPC_COEFFS"))
-    items.append(("MAX_PARTITIONS", rust_int(find(enc, r"const MAX_PARTITIONS: usize = ([0-9_]+);", "MAX_PARTITIONS").group(1)), "MAX_PARTITIONS"))
+    items.append(("MAX_SAMPLES", data_int(repo, "MAX_SAMPLES", enc, r"const MAX_SAMPLES: u64 = ([^;]+);", "Encoder::MAX_SAMPLES"), "MAX_SAMPLES"))
+    items.append(("MAX_LPC_COEFFS", rust_int(find(enc, r"const MAX_LPC_COEFFS: usize = ([^;]+);", "MAX_LPC_COEFFS").group(1)), "MAX_LPC_COEFFS"))
+    items.append(("MAX_PARTITIONS", rust_int(find(enc, r"const MAX_PARTITIONS: usize = ([^;]+);", "MAX_PARTITIONS").group(1)), "MAX_PARTITIONS"))
     # Options::block_size: `0..16 => Err(OptionsError::InvalidBlockSize)`
-    items.append(("min_block_size", data_int(repo, "min_block_size", enc, r"0\.\.(\d+) => Err\(OptionsError::InvalidBlockSize\)", "Options::block_size lower bound"), "16"))
+    items.append(("min_block_size", data_int(repo, "min_block_size", enc, r"0\.\.([^=,;{}\n]+?) => Err\(OptionsError::InvalidBlockSize\)", "Options::block_size lower bound"), "16"))
     # Options::max_lpc_order: `.filter(|o| *o <= NonZero::new(32).unwrap())`
-    items.append(("max_lpc_order", data_int(repo, "max_lpc_order", enc, r"\.filter\(\|o\| \*o <= NonZero::new\((\d+)\)\.unwrap\(\)\)\s*\.ok_or\(OptionsError::InvalidLpcOrder\)", "Options::max_lpc_order bound"), "32"))
+    items.append(("max_lpc_order", data_int(repo, "max_lpc_order", enc, r"\.filter\(\|o\| \*o <= NonZero::new\(([^()]+)\)\.unwrap\(\)\)\s*\.ok_or\(OptionsError::InvalidLpcOrder\)", "Options::max_lpc_order bound"), "32"))
     # Options::max_partition_order: `0..=15 => Ok(`
     mpo = soft_section(enc, r"pub fn max_partition_order\(self", 600)
-    items.append(("max_partition_order", data_int(repo, "max_partition_order", mpo, r"0\.\.=(\d+) => Ok\(", "max_partition_order range"), "15"))
+    items.append(("max_partition_order", data_int(repo, "max_partition_order", mpo, r"0\.\.=([^,;{}\n]+?) => Ok\(", "max_partition_order range"), "15"))
     # Encoder::new: sample rate and channel ranges
     newf = section(enc, r"fn new\(\s*mut writer: W,\s*options: Options,", "Encoder::new", 5000)
-    items.append(("sample_rate_bound", data_int(repo, "sample_rate_bound", newf, r"sample_rate: \(0\.\.(\d+)\)", "Encoder::new sample-rate range"), "1048576"))
-    items.append(("min_channels", data_int(repo, "min_channels", newf, r"channels: \((\d+)\.\.=(\d+)\)", "Encoder::new channel range (lower)", 1), "1"))
-    items.append(("max_channels", data_int(repo, "max_channels", newf, r"channels: \((\d+)\.\.=(\d+)\)", "Encoder::new channel range (upper)", 2), "8"))
+    items.append(("sample_rate_bound", data_int(repo, "sample_rate_bound", newf, r"sample_rate: \(0\.\.([^=,;{}()\n]+?)\)", "Encoder::new sample-rate range"), "1048576"))
+    items.append(("min_channels", data_int(repo, "min_channels", newf, r"channels: \(([^.,;{}()\n]+?)\.\.=([^,;{}()\n]+?)\)", "Encoder::new channel range (lower)", 1), "1"))
+    items.append(("max_channels", data_int(repo, "max_channels", newf, r"channels: \(([^.,;{}()\n]+?)\.\.=([^,;{}()\n]+?)\)", "Encoder::new channel range (upper)", 2), "8"))
     # sort keys
     keys = {}
     for name in ("VorbisComment", "SeekTable", "Picture", "Application", "Cuesheet", "Padding"):
-        keys[name] = int(find(newf, r"OptionalBlockType::%s => (\d+)," % name, "sort key of %s" % name).group(1))
+        keys[name] = rust_int(find(newf, r"OptionalBlockType::%s => ([^,;{}\n]+?)," % name, "sort key of %s" % name).group(1))
     items.append(("key_vorbiscomment", keys["VorbisComment"], "sort_key (BOther KVorbisComment [])"))
     items.append(("key_seektable", keys["SeekTable"], "sort_key (BSeekTable [])"))
     items.append(("key_picture", keys["Picture"], "sort_key (BOther KPicture [])"))
@@ -127,20 +138,20 @@ def main():
     items.append(("key_padding", keys["Padding"], "sort_key (BPadding 0)"))
     # defaults
     dflt = section(enc, r"impl Default for Options \{", "Options::default", 1600)
-    items.append(("default_block_size", rust_int(find(dflt, r"\bblock_size: (\d+),", "default block_size").group(1)), "o_block_size options_default"))
-    items.append(("default_max_partition_order", rust_int(find(dflt, r"max_partition_order: (\d+),", "default max_partition_order").group(1)), "o_max_partition_order options_default"))
-    items.append(("default_padding", rust_int(find(dflt, r"size: (\d+)u16\.into\(\)", "default padding").group(1)), "match o_metadata options_default with [BPadding s] => s | _ => 0 end"))
-    items.append(("default_max_lpc_order", rust_int(find(dflt, r"max_lpc_order: NonZero::new\((\d+)\),", "default max_lpc_order").group(1)), "match o_max_lpc_order options_default with Some v => v | None => 0 end"))
+    items.append(("default_block_size", rust_int(find(dflt, r"\bblock_size: ([^,;{}\n]+?),", "default block_size").group(1)), "o_block_size options_default"))
+    items.append(("default_max_partition_order", rust_int(find(dflt, r"max_partition_order: ([^,;{}\n]+?),", "default max_partition_order").group(1)), "o_max_partition_order options_default"))
+    items.append(("default_padding", rust_int(find(dflt, r"size: ([^,;{}\n]+?)\.into\(\)", "default padding").group(1)), "match o_metadata options_default with [BPadding s] => s | _ => 0 end"))
+    items.append(("default_max_lpc_order", rust_int(find(dflt, r"max_lpc_order: NonZero::new\(([^()]+)\),", "default max_lpc_order").group(1)), "match o_max_lpc_order options_default with Some v => v | None => 0 end"))
     sd = section(enc, r"impl Default for SeekTableInterval \{", "SeekTableInterval::default", 300)
-    items.append(("default_seek_seconds", rust_int(find(sd, r"Self::Seconds\(NonZero::new\((\d+)\)", "default seek interval").group(1)), "match o_seektable_interval options_default with Some (Seconds s) => s | _ => 0 end"))
+    items.append(("default_seek_seconds", rust_int(find(sd, r"Self::Seconds\(NonZero::new\(([^()]+)\)", "default seek interval").group(1)), "match o_seektable_interval options_default with Some (Seconds s) => s | _ => 0 end"))
     fast = section(enc, r"pub fn fast\(\) -> Self \{", "Options::fast", 500)
-    items.append(("fast_block_size", rust_int(find(fast, r"block_size: (\d+),", "fast block_size").group(1)), "o_block_size options_fast"))
-    items.append(("fast_max_partition_order", rust_int(find(fast, r"max_partition_order: (\d+),", "fast max_partition_order").group(1)), "o_max_partition_order options_fast"))
+    items.append(("fast_block_size", rust_int(find(fast, r"block_size: ([^,;{}\n]+?),", "fast block_size").group(1)), "o_block_size options_fast"))
+    items.append(("fast_max_partition_order", rust_int(find(fast, r"max_partition_order: ([^,;{}\n]+?),", "fast max_partition_order").group(1)), "o_max_partition_order options_fast"))
     find(fast, r"max_lpc_order: None,", "fast max_lpc_order")
     best = section(enc, r"pub fn best\(\) -> Self \{", "Options::best", 500)
-    items.append(("best_block_size", rust_int(find(best, r"block_size: (\d+),", "best block_size").group(1)), "o_block_size options_best"))
-    items.append(("best_max_partition_order", rust_int(find(best, r"max_partition_order: (\d+),", "best max_partition_order").group(1)), "o_max_partition_order options_best"))
-    items.append(("best_max_lpc_order", rust_int(find(best, r"max_lpc_order: NonZero::new\((\d+)\),", "best max_lpc_order").group(1)), "match o_max_lpc_order options_best with Some v => v | None => 0 end"))
+    items.append(("best_block_size", rust_int(find(best, r"block_size: ([^,;{}\n]+?),", "best block_size").group(1)), "o_block_size options_best"))
+    items.append(("best_max_partition_order", rust_int(find(best, r"max_partition_order: ([^,;{}\n]+?),", "best max_partition_order").group(1)), "o_max_partition_order options_best"))
+    items.append(("best_max_lpc_order", rust_int(find(best, r"max_lpc_order: NonZero::new\(([^()]+)\),", "best max_lpc_order").group(1)), "match o_max_lpc_order options_best with Some v => v | None => 0 end"))
     # Encoder::encode refuses a frame larger than the stream's block size (repo fix 6387abb; Finalize.encoder_encode models it)
     encf = soft_section(enc, r"fn encode\(&mut self, frame: &Frame\) -> Result<\(\), Error> \{", 1600)
     soft_find(encf, r"frame\.pcm_frames\(\) > usize::from\(self\.blocks\.streaminfo\(\)\.maximum_block_size\)", "Encoder::encode: a frame larger than the block size is refused")
@@ -158,12 +169,12 @@ def main():
     soft_find(stw, r"point\.sample_offset\(\) == Some\(u64::MAX\) => Err\(Error::InvalidSeekTablePoint\)", "SeekTable::to_writer: defined point with u64::MAX is refused")
     items.append(("U64_MAX", 2 ** 64 - 1, "U64_MAX"))
     items.append(("MAX_FRAME_SIZE", rust_int(find(meta, r"pub const MAX_FRAME_SIZE: u32 = ([^;]+);", "Streaminfo::MAX_FRAME_SIZE").group(1)), "MAX_FRAME_SIZE"))
-    items.append(("STREAMINFO_SIZE", rust_int(find(meta, r"const SIZE: BlockSize = BlockSize\((0x[0-9a-fA-F]+)\);", "Streaminfo::SIZE").group(1)), "34"))
-    items.append(("HEADER_SIZE", rust_int(find(meta, r"const SIZE: BlockSize = BlockSize\((\(1 \+ 7 \+ 24\) / 8)\);", "BlockHeader::SIZE").group(1)), "HEADER_SIZE"))
+    items.append(("STREAMINFO_SIZE", rust_int(const_of_impl(meta, "Streaminfo", "SIZE") or fail("Streaminfo::SIZE")), "34"))
+    items.append(("HEADER_SIZE", rust_int(const_of_impl(meta, "BlockHeader", "SIZE") or fail("BlockHeader::SIZE")), "HEADER_SIZE"))
     tw = section(meta, r"impl ToBitStream for BlockType \{", "BlockType::to_writer", 700)
     codes = {}
     for name in ("Streaminfo", "Padding", "Application", "SeekTable", "VorbisComment", "Cuesheet", "Picture"):
-        codes[name] = int(find(tw, r"Self::%s => (\d+)," % name, "block type code of %s" % name).group(1))
+        codes[name] = rust_int(find(tw, r"Self::%s => ([^,;{}\n]+?)," % name, "block type code of %s" % name).group(1))
     items.append(("type_padding", codes["Padding"], "oblock_type (BPadding 0)"))
     items.append(("type_application", codes["Application"], "oblock_type (BOther KApplication [])"))
     items.append(("type_seektable", codes["SeekTable"], "oblock_type (BSeekTable [])"))
